@@ -2,7 +2,9 @@
 """Verify behaviour-preserving refactorings under <srcdir>/Gk/refN (suite passes, equiv.py digest identical on
 clean and refactored tree) and import them as benign/<Gk>-refN."""
 import concurrent.futures as cf, json, os, pathlib, shutil, subprocess, sys, tempfile
-src = pathlib.Path(sys.argv[1]); only = sys.argv[2:]
+src = pathlib.Path(sys.argv[1]); only = [a for a in sys.argv[2:] if not a.startswith("--tag=")]
+TAG = ([a[6:] for a in sys.argv[2:] if a.startswith("--tag=")] or [""])[0]     # e.g. --tag=r2 -> benign/G1-r2ref1
+def nm(d): return "%s-%s%s" % (d.parent.name, TAG, d.name)
 VERIF = pathlib.Path(__file__).resolve().parent.parent
 PY = "/venv/bin/python"
 
@@ -35,10 +37,10 @@ def verify(d):
     return r
 
 dirs = [d for d in sorted(src.glob("G*/ref*")) if (not only or d.parent.name in only) and (d / "patch.diff").exists()
-        and not (VERIF / "benign" / ("%s-%s" % (d.parent.name, d.name))).exists()]
+        and not (VERIF / "benign" / nm(d)).exists()]
 with cf.ThreadPoolExecutor(6) as ex:
     for r in ex.map(verify, dirs):
-        d = pathlib.Path(r["dir"]); name = "%s-%s" % (d.parent.name, d.name)
+        d = pathlib.Path(r["dir"]); name = nm(d)
         if not r.get("valid"):
             print(name, "INVALID", r); continue
         dst = VERIF / "benign" / name; dst.mkdir(parents=True)
